@@ -101,6 +101,12 @@ VARIANTS = {
             "ASAN_SYMBOLIZER_PATH": "/usr/bin/llvm-symbolizer-14",
         },
     },
+    # development aid (tools/coverage.py): source-based coverage of /repo under the checks' workloads
+    "cov": {
+        "cmd": ["cargo", "+nightly", "build", "--offline"],
+        "env": {"RUSTFLAGS": HOOK_CFG + " -Cinstrument-coverage"},
+        "bin": "debug/dmntk-verif-driver",
+    },
     "tsan": {
         "cmd": ["cargo", "+nightly", "build", "--offline", "-Zbuild-std", "--target", "x86_64-unknown-linux-gnu"],
         "env": {
@@ -270,9 +276,14 @@ def run_cases(variant, cases, workdir, label="run", nshards=None, case_timeout=2
     results[k] is the driver's record for cases[k], or {"crash":..} / {"timeout":..} when the
     process died / hung in that case, or {"missing":True} if the harness lost it.
     """
+    cov_dir = os.environ.get("VERIF_COVERAGE")
+    if cov_dir and variant == "dbg":
+        variant = "cov"
     binary = build(variant)
     spec = VARIANTS[variant]
     run_env = dict(spec.get("run_env", {}))
+    if variant == "cov":
+        run_env["LLVM_PROFILE_FILE"] = os.path.join(cov_dir, "%p-%8m.profraw")
     if extra_env:
         run_env.update(extra_env)
     n = len(cases)
